@@ -49,6 +49,8 @@ def cases(tier):
         for subset in itertools.product([False, True], repeat=3):
             for dt in dts:
                 yield dict(kind="overwrites", oneoff=oneoff, cov=subset[0], cap=subset[1], alloc=subset[2], dt=dt)
+                if any(subset):
+                    yield dict(kind="overwrites", oneoff=oneoff, cov=subset[0], cap=subset[1], alloc=subset[2], dt=dt, zero=True)  # the overwrite values are exactly 0
     for oneoff in (True, False):
         for field in ("spend", "uc", "cap", "sat"):
             yield dict(kind="stepped", oneoff=oneoff, field=field)
@@ -163,12 +165,14 @@ def run_overwrites(case):
     t = np.array([2020.0, 2021.0])
     ps = one_prog_set(oneoff)
     kw = {}
+    z = bool(case.get("zero"))
+    vcov, vcap, valloc = (0.0, 0.0, 0.0) if z else (0.3, 20.0, 60.0)
     if case["cov"]:
-        kw["coverage"] = {"P1": 0.3}
+        kw["coverage"] = {"P1": vcov}
     if case["cap"]:
-        kw["capacity"] = {"P1": 20.0}
+        kw["capacity"] = {"P1": vcap}
     if case["alloc"]:
-        kw["alloc"] = {"P1": 60.0}
+        kw["alloc"] = {"P1": valloc}
     ins = at.ProgramInstructions(start_year=2020.0, **kw)
     h0 = (snap_hash(ps), snap_hash(ins))
     elig = 80.0
@@ -176,14 +180,14 @@ def run_overwrites(case):
     cov = ps.get_prop_coverage(tvec=t, dt=dt, capacities=caps, num_eligible={"P1": np.array([elig, elig])}, instructions=ins)
     vs = []
     k = dt if oneoff else 1.0
-    exp_cap = 20.0 * k if case["cap"] else (60.0 if case["alloc"] else 100.0) / 2.0 * k
+    exp_cap = vcap * k if case["cap"] else (valloc if case["alloc"] else 100.0) / 2.0 * k
     if case["cov"]:
-        exp_cov = min(0.3 * k, 1.0)
+        exp_cov = min(vcov * k, 1.0)
     else:
         exp_cov = min(exp_cap / elig, 1.0)
     got_cap = float(caps["P1"][0])
     got_cov = float(cov["P1"][0])
-    lab = f"oneoff={oneoff} dt={dt!r} overwrites={[k for k in ('coverage', 'capacity', 'alloc') if k in kw]}"
+    lab = f"oneoff={oneoff} dt={dt!r} overwrites={[k for k in ('coverage', 'capacity', 'alloc') if k in kw]}" + (" with value 0" if z else "")
     if abs(got_cap - exp_cap) > 1e-12 * max(1, exp_cap):
         vs.append(V("overwrite-precedence-capacity", f"{lab}: capacity {got_cap!r}, expected {exp_cap!r}", None))
     if abs(got_cov - exp_cov) > 1e-12:
